@@ -70,6 +70,9 @@ pub async fn verify_consecutive_append_only<TC: Configuration>(
 ) -> Result<(), AkdError> {
     verify_append_only_hash::<TC>(proof.unchanged_nodes.clone(), start_hash, None).await?;
 
+    // An inserted node must not replace an unchanged node or (part of) its subtree
+    verify_prefix_free(proof.unchanged_nodes.iter().chain(proof.inserted.iter()))?;
+
     let mut unchanged_with_inserted_nodes = proof.unchanged_nodes.clone();
     unchanged_with_inserted_nodes.extend(proof.inserted.iter().map(|x| {
         let mut y = *x;
@@ -79,6 +82,34 @@ pub async fn verify_consecutive_append_only<TC: Configuration>(
 
     verify_append_only_hash::<TC>(unchanged_with_inserted_nodes, end_hash, Some(end_epoch - 1))
         .await?;
+    Ok(())
+}
+
+/// Verifies that no label in the given set of nodes is equal to, or a prefix of, the label
+/// of another node in the set. Rebuilding a tree from a set of nodes is only meaningful if
+/// this is the case, since otherwise one node would (silently) replace another node or a
+/// part of the subtree it stands for.
+fn verify_prefix_free<'a>(
+    nodes: impl Iterator<Item = &'a AzksElement>,
+) -> Result<(), AkdError> {
+    let mut labels = nodes
+        .map(|node| node.label.get_prefix(node.label.label_len))
+        .collect::<Vec<_>>();
+    // With this ordering, a label is directly followed by a label that it is a prefix of
+    // (if there is any), so it suffices to compare neighbors
+    labels.sort_by(|a, b| {
+        a.label_val
+            .cmp(&b.label_val)
+            .then(a.label_len.cmp(&b.label_len))
+    });
+    for pair in labels.windows(2) {
+        if pair[0].is_prefix_of(&pair[1]) {
+            return Err(AkdError::AuditErr(AuditorError::VerifyAuditProof(format!(
+                "The nodes of the proof overlap: label {} is equal to or a prefix of label {}",
+                pair[0], pair[1]
+            ))));
+        }
+    }
     Ok(())
 }
 
